@@ -128,13 +128,38 @@ impl<T> Write for WebsocketStreamWrapper<T> where T : Read + Write {
                 Ok(buf.len())
             }
             Err(err) => {
-                Err(map_tungstenite_error_to_io_error(err))
+                // tungstenite queues the frame before trying to write it out, so a would-block from the
+                // underlying stream means the message has been accepted and will go out with a later
+                // write or flush.  Reporting would-block here makes the caller submit the same bytes again.
+                if is_tungstenite_error_would_block(&err) {
+                    Ok(buf.len())
+                } else {
+                    Err(map_tungstenite_error_to_io_error(err))
+                }
             }
         }
     }
 
     fn flush(&mut self) -> std::io::Result<()> {
-        self.stream.flush().map_err(|err| { map_tungstenite_error_to_io_error(err) })
+        // frames accepted by write() may still be queued; flush means "handed to the transport", so keep
+        // pushing while the underlying (non-blocking) stream would block, up to a generous limit
+        let start = std::time::Instant::now();
+        loop {
+            match self.stream.flush() {
+                Ok(()) => { return Ok(()); }
+                Err(err) => {
+                    if !is_tungstenite_error_would_block(&err) {
+                        return Err(map_tungstenite_error_to_io_error(err));
+                    }
+
+                    if start.elapsed() > std::time::Duration::from_secs(30) {
+                        return Err(std::io::Error::new(ErrorKind::TimedOut, "Websocket flush timed out"));
+                    }
+
+                    std::thread::sleep(std::time::Duration::from_millis(1));
+                }
+            }
+        }
     }
 }
 
